@@ -53,8 +53,25 @@ def repo_hash():
     return _repo_hash
 
 
-def spec_hash(mods=None):
-    files = glob.glob(os.path.join(SPEC, "*.tla")) + glob.glob(os.path.join(SPEC, "*.cfg"))
+def spec_hash(module=None, cfg=None):
+    """Hash of a module, the modules it (transitively) EXTENDS/INSTANCEs inside spec/, and its config."""
+    if module is None:
+        files = glob.glob(os.path.join(SPEC, "*.tla")) + glob.glob(os.path.join(SPEC, "*.cfg"))
+        return _hash_files(files)
+    seen, todo = set(), [module]
+    while todo:
+        m = todo.pop()
+        p = os.path.join(SPEC, m + ".tla")
+        if m in seen or not os.path.exists(p):
+            continue
+        seen.add(m)
+        txt = open(p).read()
+        for line in re.findall(r"EXTENDS([^\n]*)", txt):
+            todo += [x.strip() for x in line.split(",")]
+        todo += re.findall(r"INSTANCE\s+(\w+)", txt)
+    files = [os.path.join(SPEC, m + ".tla") for m in seen]
+    if cfg:
+        files.append(os.path.join(SPEC, cfg + ".cfg"))
     return _hash_files(files)
 
 
@@ -171,10 +188,10 @@ def tlc_model_check(module, cfg=None, workers=None, **kw):
 
 def tlc_generate(module, cfg, outfile_env="OUT", key_extra="", **kw):
     """Run a generator module (writes an ndjson table to IOEnv.OUT); cached in generated/ keyed by the spec hash."""
-    key = hashlib.sha256((spec_hash() + module + (cfg or "") + key_extra).encode()).hexdigest()[:16]
-    path = os.path.join(GEN, f"{module}.{cfg or module}.{key}.ndjson")
+    key = hashlib.sha256((spec_hash(module, cfg or module) + module + (cfg or "") + key_extra).encode()).hexdigest()[:16]
+    path = os.path.join(GEN, f"{module}.{cfg or module}.{key_extra}.{key}.ndjson")
     if not os.path.exists(path):
-        for old in glob.glob(os.path.join(GEN, f"{module}.{cfg or module}.*.ndjson")):
+        for old in glob.glob(os.path.join(GEN, f"{module}.{cfg or module}.{key_extra}.*.ndjson")):
             os.remove(old)
         env = dict(kw.pop("env", {}) or {})
         env[outfile_env] = path + ".tmp"
